@@ -35,8 +35,12 @@ const ScopeIndexEqualLen = "constant-index-equal-to-array-length"
 // repository's tests expect the rejection).
 const ScopeFloatDivZero = "float-division-by-constant-zero"
 
+// ScopeLabelledFallthrough: a fallthrough statement that carries a label, whose
+// position in the case clause is not verified (C03-F5).
+const ScopeLabelledFallthrough = "labelled-fallthrough"
+
 // AllScopes lists the scope names the worker understands.
-var AllScopes = []string{ScopeLabelledBranchInRange, ScopeRecursiveType, ScopeIndexEqualLen, ScopeFloatDivZero}
+var AllScopes = []string{ScopeLabelledBranchInRange, ScopeRecursiveType, ScopeIndexEqualLen, ScopeFloatDivZero, ScopeLabelledFallthrough}
 
 // inScope returns the first active scope the program falls in, or "".
 func inScope(r *gotypes.Result, active []string) string {
@@ -59,6 +63,19 @@ func inScope(r *gotypes.Result, active []string) string {
 			}
 		case ScopeFloatDivZero:
 			if hasFloatDivZero(r) {
+				return sc
+			}
+		case ScopeLabelledFallthrough:
+			found := false
+			ast.Inspect(r.File, func(n ast.Node) bool {
+				if l, ok := n.(*ast.LabeledStmt); ok {
+					if b, ok := l.Stmt.(*ast.BranchStmt); ok && b.Tok == token.FALLTHROUGH {
+						found = true
+					}
+				}
+				return true
+			})
+			if found {
 				return sc
 			}
 		}
